@@ -59,6 +59,7 @@ type svcSecret struct {
 	active   uint32
 	latest   uint32
 	hist     []span
+	deleted  bool // deleted at the service: requests report ErrNotFound
 }
 
 // Req is one request received by the service.
@@ -392,8 +393,11 @@ func (v *Svc) request(ctx context.Context, name string, cond bool, old uint32) (
 	}
 	v.mu.Lock()
 	s := v.secrets[name]
-	if s == nil {
+	if s == nil || s.deleted {
 		v.mu.Unlock()
+		if s != nil {
+			w.S.Fault("svc-secret-deleted")
+		}
 		return finish(nil, api.ErrNotFound)
 	}
 	if out.ChangeBefore {
@@ -472,6 +476,46 @@ func (v *Svc) ReqsSince(stamp int64) []*Req {
 
 // NumReqs returns the number of requests so far.
 func (v *Svc) NumReqs() int { v.mu.Lock(); defer v.mu.Unlock(); return len(v.Reqs) }
+
+// Delete removes name at the service (an operator deleting a secret that
+// stores still use): requests report ErrNotFound until it is put again.
+func (v *Svc) Delete(name string) bool {
+	v.mu.Lock()
+	defer v.mu.Unlock()
+	s := v.secrets[name]
+	if s == nil || s.deleted {
+		return false
+	}
+	s.deleted = true
+	return true
+}
+
+// Undelete puts name again: a new, larger version number becomes active (a
+// service that restarted numbering would be outside what the store claims).
+func (v *Svc) Undelete(name string) uint32 {
+	v.mu.Lock()
+	defer v.mu.Unlock()
+	s := v.secrets[name]
+	if s == nil || !s.deleted {
+		return 0
+	}
+	s.deleted = false
+	return v.bumpLocked(name)
+}
+
+// Deleted lists the names currently deleted at the service.
+func (v *Svc) Deleted() []string {
+	v.mu.Lock()
+	defer v.mu.Unlock()
+	var out []string
+	for n, s := range v.secrets {
+		if s.deleted {
+			out = append(out, n)
+		}
+	}
+	sort.Strings(out)
+	return out
+}
 
 // Names returns the service's names, sorted.
 func (v *Svc) Names() []string {
